@@ -44,11 +44,24 @@ VAR_PLACES = ["top", "nested", "in_array"]
 def case(draw):
     names = draw(S.unique_names(CS.can_type, 4, 4))
     msg, helper, enum_name, other = names
-    kind = draw(st.sampled_from(["over", "over", "variable", "fit"]))
+    kind = draw(st.sampled_from(["over", "over", "over", "variable", "variable", "fit", "fit", "collide"]))
     decls: List[M.Decl] = []
     fnames = draw(S.unique_names(CS.can_field, 5, 5))
     info: Dict[str, Any] = {"kind": kind}
-    if kind in ("over", "fit"):
+    if kind == "collide":
+        # an over-long message in which a sibling field is spelled like an unrolled array element (x_1 next to
+        # x: [T, n]): both leaves carry the same name, and a size computed per *name* under-counts
+        ew, cnt = draw(st.sampled_from([(32, 2), (16, 4), (8, 8), (21, 3)]))
+        extra = draw(st.integers(1, 8))
+        k = draw(st.integers(0, cnt - 1))
+        arr = fnames[0]
+        fields = [M.Field(arr, 0, M.Arr(M.U(ew), cnt)), M.Field(f"{arr}_{k}", 1, M.U(extra))]
+        if draw(st.booleans()):
+            fields.reverse()
+        decls.append(M.Struct(msg, fields))
+        info["place"] = "collide"
+        info["total"] = ew * cnt + extra
+    elif kind in ("over", "fit"):
         if kind == "over":
             total = draw(st.sampled_from([65, 66, 72, 71, 80, 128, 129, 200]) | st.integers(65, 72) | st.integers(65, 200))
         else:
